@@ -50,8 +50,15 @@ MCInit == \/ \E s \in Strs : InitWith([op |-> "pct", in |-> s])
                 /\ (n > 0 => k \in {"server", "bidi"} /\ c # "early")
                 /\ InitWith([op |-> "handler_ctx", proto |-> p, used |-> k, text |-> c, n |-> n])
           \* C14: the response head and the cancellation race, the response wins
-          \/ \E p \in {"connect", "grpc", "grpcweb"}, k \in {"unary", "client", "server", "bidi"}, w \in {0, 30} :
-                InitWith([op |-> "late_response", proto |-> p, used |-> k, d |-> w])
+          \* (n: the HTTP status of that response, 0 = 200; text = "body": the head arrives in time, the context ends when
+          \*  the body is first read)
+          \/ \E p \in {"connect", "grpc", "grpcweb"}, k \in {"unary", "client", "server", "bidi"}, w \in {0, 30},
+                st \in {0, 503, 404}, t \in {"before", "body"} :
+                /\ (t = "body" => w = 0)
+                \* (only unary Connect reads the body of a non-200 response to classify the failure: elsewhere the call
+                \*  has failed, with the status' code, before that body is touched and the context ends)
+                /\ (t = "body" /\ st # 0 => p = "connect" /\ k = "unary")
+                /\ InitWith([op |-> "late_response", proto |-> p, used |-> k, d |-> w, n |-> st, text |-> t])
           \* C14: a Receive that fails for a reason of its own while the handler is waiting for the client
           \/ \E p \in {"connect", "grpc", "grpcweb"} : InitWith([op |-> "recvfail_live", proto |-> p])
           \* C11: error metadata when the error payload exceeds the client's read limit
